@@ -63,7 +63,7 @@ Definition ws_send_tests (n : nat) (num : Z) : W unit :=
    membership of nodes_up for one check_schedule call *)
 Definition ws_up (s : wsstate) : list nat :=
   filter (fun n => match aget n (ws_nt s) with
-                   | Some c => negb (shutting_down c)
+                   | Some c => negb (shutting_down c) && ahas n (ws_n2c s)
                    | None => false
                    end) (akeys (ws_n2p s)).
 
@@ -97,6 +97,7 @@ Fixpoint ws_distribute (idle : list nat) : W unit :=
 
 Definition ws_check_schedule : W unit :=
   s <- get ;;
+  match ws_coll s with None => ret tt | Some _ =>      (* initial distribution not done yet *)
   let up := ws_up s in
   let idle := ws_idle s up in
   match idle with
@@ -129,6 +130,7 @@ Definition ws_check_schedule : W unit :=
               end
           end
       end
+  end
   end.
 
 Definition ws_add_node (n : nat) : W unit :=
@@ -145,7 +147,8 @@ Definition ws_add_node_collection (n : nat) (coll : list string) : W unit :=
         if coll_eqb coll (c0 :: cr) then put (ws_set_n2c s (aset n coll (ws_n2c s)))
         else
           other <- of_opt (first_key (ws_n2c s)) EOther ;;
-          emit (OLogDiff other n)
+          emit (OLogDiff other n) ;;;
+          node_shutdown ws_nt ws_set_nt n
     | _ => raise EAssert
     end
   else put (ws_set_n2c s (aset n coll (ws_n2c s))).
@@ -179,6 +182,8 @@ Definition ws_remove_node (n : nat) : W (option string) :=
   s <- get ;;
   pend <- of_opt (aget n (ws_n2p s)) EKey ;;
   put (ws_set_n2p s (adel n (ws_n2p s))) ;;;
+  (s0 <- get ;; if ws_collection_is_completed s0 then ret tt
+                else put (ws_set_n2c s0 (adel n (ws_n2c s0)))) ;;;
   crash <- (match pend with
             | [] => ret None
             | i :: _ =>
